@@ -2,6 +2,7 @@ package main
 
 import (
 	"bufio"
+	"bytes"
 	"database/sql"
 	"encoding/csv"
 	"fmt"
@@ -119,12 +120,23 @@ func runCreate(csvPath, out string, big bool, timeout time.Duration) (string, er
 // (exit status 0) the output must hold every record of the input; if it does not, the output is absent, rejected by
 // OpenIndex, or complete. An index that opens and silently misses records is never acceptable.
 func terminatedCreate(rep *Report, prop string, big bool, sig syscall.Signal) {
+	terminatedCreateX(rep, prop, big, sig, false)
+}
+
+// terminatedCreateX: with existing = true the output path holds somebody's file before the command starts (whatever
+// happens, that file stays exactly as it was); sig = 0 sends no signal at all (the command reads its whole input from
+// a pipe-like, unseekable source and must ingest it exactly like a regular file).
+func terminatedCreateX(rep *Report, prop string, big bool, sig syscall.Signal, existing bool) {
 	fifo := scratch(fmt.Sprintf("create-fifo-%d.csv", rep.Evaluations))
 	out := scratch(fmt.Sprintf("create-term-%d.updog", rep.Evaluations))
 	os.Remove(fifo)
 	os.Remove(out)
 	defer os.Remove(fifo)
 	defer os.Remove(out)
+	precious := []byte("precious user data, not ours\n")
+	if existing {
+		os.WriteFile(out, precious, 0644)
+	}
 	if err := syscall.Mkfifo(fifo, 0600); err != nil {
 		rep.Note("mkfifo not available: %v", err)
 		return
@@ -151,7 +163,7 @@ func terminatedCreate(rep *Report, prop string, big bool, sig syscall.Signal) {
 		defer w.Close()
 		fmt.Fprintf(w, "tag,grp\n")
 		for i := 0; i < total; i++ {
-			if i == total/2 {
+			if i == total/2 && sig != 0 {
 				time.Sleep(400 * time.Millisecond) // let the reader consume the first half
 				cmd.Process.Signal(sig)
 				time.Sleep(150 * time.Millisecond)
@@ -177,9 +189,23 @@ func terminatedCreate(rep *Report, prop string, big bool, sig syscall.Signal) {
 	case <-fed:
 	case <-time.After(5 * time.Second):
 	}
-	c := map[string]any{"big": big, "signal": sig.String(), "records": total, "signal_after": total / 2}
-	rep.Eval(fmt.Sprintf("terminated-create-%v-%v", big, sig), true)
+	c := map[string]any{"big": big, "signal": fmt.Sprint(int(sig)), "records": total, "signal_after": total / 2, "existing_output": existing}
+	rep.Eval(fmt.Sprintf("terminated-create-%v-%v-%v", big, sig, existing), true)
 	rep.Count("terminated-create-runs")
+	if existing {
+		data, err := os.ReadFile(out)
+		if err != nil || !bytes.Equal(data, precious) {
+			rep.Violate(Violation{Kind: "fault", Signature: prop + ":existing-output-touched", What: fmt.Sprintf("`updog create` (big=%v) onto an existing output, signal %d after half of the input: the existing file is gone or changed (ended with %v)", big, int(sig), werr), Expected: "file exactly as it was", Actual: fmt.Sprintf("%d bytes, err %v", len(data), err), Case: c})
+		}
+		if werr == nil {
+			rep.Violate(Violation{Kind: "fault", Signature: prop + ":bad-input-ok", What: fmt.Sprintf("`updog create` (big=%v) onto an existing output exited with status 0", big), Expected: "non-zero", Actual: "0", Case: c})
+		}
+		return
+	}
+	if sig == 0 && werr != nil {
+		rep.Violate(Violation{Kind: "input", Signature: prop + ":create-failed", What: fmt.Sprintf("`updog create` (big=%v) reading a well-formed CSV from a pipe failed: %v", big, werr), Expected: "exit 0", Actual: fmt.Sprint(werr), Case: c})
+		return
+	}
 	if werr != nil && strings.HasPrefix(werr.Error(), "hang") {
 		rep.Violate(Violation{Kind: "fault", Signature: prop + ":create-hang", What: fmt.Sprintf("`updog create` (big=%v) did not end within the time limit after %v", big, sig), Expected: "ends", Actual: werr.Error(), Case: c})
 		return
@@ -200,6 +226,19 @@ func terminatedCreate(rep *Report, prop string, big bool, sig syscall.Signal) {
 	for _, i := range []int{0, 1, total/2 - 1, total / 2, total/2 + 1, total - 2, total - 1} {
 		if got := safeExecute(idx, &updog.Query{Expr: &updog.ExprEqual{Column: "tag", Value: fmt.Sprintf("row-%05d", i)}}); got != "ok 1" {
 			missing++
+		}
+	}
+	if sig == 0 {
+		// column names: the header arrived intact
+		want := "tag,grp"
+		var names []string
+		for _, col := range idx.GetSchema().Columns {
+			names = append(names, col.Name)
+		}
+		sort.Strings(names)
+		if got := strings.Join(names, ","); got != "grp,tag" {
+			rep.Violate(Violation{Kind: "input", Signature: prop + ":schema-differs", What: fmt.Sprintf("`updog create` (big=%v) reading header %q from a pipe built columns %q", big, want, got), Expected: "grp,tag", Actual: got, Case: c})
+			return
 		}
 	}
 	if n != total || missing > 0 {
